@@ -26,6 +26,18 @@ impl Queue {
     pub(crate) fn send(&self, sig: &Signal) {
         let sender = self.sender.clone();
         let sig = sig.clone();
+        #[cfg(feature = "verif")]
+        {
+            // count the signal as in-flight until the scheduler loop has processed it
+            crate::verif::inflight_inc("queue");
+            let (sender, sig) = (sender.clone(), sig.clone());
+            Handle::current().spawn(async move {
+                crate::verif::chaos_yield("queue.send").await;
+                sender.send(sig).await
+            });
+            return;
+        }
+        #[allow(unreachable_code)]
         Handle::current().spawn(async move { sender.send(sig).await });
     }
 
